@@ -7,7 +7,7 @@ import tempfile
 import numpy as np
 from hypothesis import strategies as st
 
-from vlib.harness import Machine
+from vlib.harness import Machine, Sub
 
 PROPERTY = "C19"
 RULE = (
@@ -232,6 +232,9 @@ def apply(s, name, args, ctx):
     with s:
         if name == "population":
             root = s.roots[args % len(s.roots)]
+            if (args // 7) % 3 == 0:
+                root = root + os.sep  # the directory written with a trailing separator
+                ctx.cls("root-written-with-a-trailing-separator")
             real = ctx.lib("Population.from_swc", Population.from_swc, root)
             files = s.members(ctx, real, root, "population")
             ld = _Loader(files)
@@ -244,6 +247,10 @@ def apply(s, name, args, ctx):
             intersect = bool(args[0] % 2)
             k = 1 + args[1] % len(s.roots)
             roots = s.roots[:k] if args[0] % 4 < 2 else list(reversed(s.roots))[:k]
+            if (args[0] // 4) % 3 == 0:
+                # directories written with a trailing separator (all of them, or only the first)
+                roots = [r + os.sep if (j == 0 or args[0] % 8 < 4) else r for j, r in enumerate(roots)]
+                ctx.cls("root-written-with-a-trailing-separator")
             rels = [s.listing(r, relpath=True) for r in roots]
             rels_may = [s.listing(r, relpath=True, may=True) for r in roots]
             real = ctx.lib("Populations.from_swc", Populations.from_swc, roots, intersect=intersect)
@@ -353,6 +360,11 @@ def apply(s, name, args, ctx):
                     s.flags["negative"] = True
                 _request(s, c.slots[j])
                 _check_tree(s, ctx, t, c.slots[j], f"{c.kind}/index-returns-the-tree-of-file-i")
+                if args[1] % 2:
+                    # the caller looks at the tree it was handed (read-only): nothing of that concerns the container
+                    ctx.lib("tree/inspect", lambda: (t.node(0).children(), t.get_tips(), t.get_branches(), t.length(),
+                                                    t.soma(type_check=False).children()))
+                    s.flags["inspected"] = True
             else:
                 try:
                     t = c.real[i]
@@ -460,6 +472,8 @@ def invariant(s, ctx):
 
 
 def finish(s, ctx):
+    if s.flags.get("inspected") and s.flags.get("maps"):
+        ctx.cls("map-after-fetched-trees-were-inspected")
     nfiles = [len(sp["files"]) for sp in s.layout]
     nested = any("/" in f for sp in s.layout for f in sp["files"])
     empty = any(sp["empty"] for sp in s.layout)
@@ -490,7 +504,79 @@ def finish(s, ctx):
                    and s.flags["negative"] and s.flags["chain2"])
 
 
+# ----------------------------------------------------------------------------- hundreds of files
+@st.composite
+def many_strategy(draw, tier):
+    return {"n": draw(st.sampled_from([257, 300, 300, 520])), "nested": draw(st.booleans()),
+            "sel": draw(st.lists(st.integers(0, 10 ** 6), min_size=6, max_size=6))}
+
+
+def run_many(case, ctx):
+    from swcgeom.core import Population
+
+    n = case["n"]
+    base = tempfile.mkdtemp(prefix="many-", dir=ctx.tmpdir)
+    for i in range(n):
+        d = os.path.join(base, f"g{i % 7}") if case["nested"] else base
+        os.makedirs(d, exist_ok=True)
+        with open(os.path.join(d, f"n{i:04d}.swc"), "w") as f:
+            f.write(f"1 1 {i}.0 0 0 1 -1\n2 3 {i}.0 1 0 1 1\n")
+    ctx.cls(f"files:{n}", "nested" if case["nested"] else "flat")
+    ctx.nontrivial(True)
+    reads = {}
+    orig = builtins.open
+
+    def counting_open(file, mode="r", *a, **kw):
+        if isinstance(file, (str, bytes, os.PathLike)):
+            q = os.path.abspath(os.fsdecode(file))
+            if q.startswith(base + os.sep) and "w" not in mode and "a" not in mode:
+                reads[q] = reads.get(q, 0) + 1
+        return orig(file, mode, *a, **kw)
+
+    builtins.open = counting_open
+    try:
+        pop = ctx.lib("Population.from_swc", Population.from_swc, base)
+        listing = [os.path.abspath(x) for x in pop.trees.swcs]
+        ctx.check(len(pop) == n and len(set(listing)) == n, "many/len", f"{len(pop)} for {n} files")
+        asked = set()
+
+        def member(container, k, want_pos, clause):
+            t = ctx.lib(clause, lambda: container[k])
+            want = listing[want_pos]
+            asked.add(want)
+            ctx.check(os.path.abspath(t.source) == want and float(t.x()[0]) == float(int(os.path.basename(want)[1:5])), clause,
+                      lambda: f"position {want_pos} of {n}: got {t.source!r} (x={t.x()[0]}), expected {want!r}")
+
+        for i in sorted({0, 255 % n, 256 % n, 257 % n, n - 1} | {v % n for v in case["sel"][:2]}):
+            member(pop, i, i, "many/index-returns-the-tree-of-file-i")
+        for i in (-1, -2, -(n - 256)):
+            member(pop, i, n + i, "many/negative-index")
+        sl = [slice(n - 10, n - 5), slice(-5, None), slice(256, n, 11), slice(1, n, 2), slice(None, None, -1),
+              slice(case["sel"][2] % n, None, 1 + case["sel"][3] % 5)]
+        for sc in sl:
+            idx = list(range(n))[sc]
+            sub = ctx.lib("many/slice", lambda: pop[sc])
+            ctx.check(len(sub) == len(idx), "many/slice-length", f"{sc}: {len(sub)} vs {len(idx)}")
+            for k in sorted({0, len(idx) - 1, len(idx) // 2, case["sel"][4] % max(1, len(idx))}):
+                if idx:
+                    member(sub, k, idx[k], "many/slice-agrees-with-indices")
+            if idx and sc.step in (11, 2):
+                wrapped = Population(sub, root="slice")
+                asked.update(listing[k] for k in idx)  # iterating the whole slice asks for every member of it
+                ts = list(wrapped)[:3]
+                for k, t in enumerate(ts):
+                    asked.add(listing[idx[k]])
+                    ctx.check(os.path.abspath(t.source) == listing[idx[k]], "many/iteration-over-a-slice",
+                              lambda: f"{sc} member {k}: {t.source!r} vs {listing[idx[k]]!r}")
+        extra = {os.path.relpath(q, base): c for q, c in reads.items() if c > 1 or (q not in asked and q != listing[0])}
+        ctx.check(not extra, "many/each-file-read-at-most-once-and-only-on-request", lambda: f"{dict(list(extra.items())[:5])}")
+    finally:
+        builtins.open = orig
+        shutil.rmtree(base, ignore_errors=True)
+
+
 SUBCHECKS = [
+    Sub("many_files", many_strategy, run_many, quick=12, thorough=60, shards_quick=6, shards_thorough=12, required={"files:300": 2}),
     Machine("containers", init_strategy,
             {"population": INT, "populations": SEL, "ps_get": SEL, "ps_iter": INT, "to_population": INT, "chain": SEL,
              "get": SEL, "slice": lambda tier: st.one_of(
@@ -505,5 +591,6 @@ SUBCHECKS = [
                                       "root-without-files": 5, "iterated-a-non-prefix-slice": 5,
                                       "map-over-a-population-made-of-a-slice": 2, "map-with-progress-bar-and-uneven-work": 3,
                                       "layout-with-case-variant-extensions": 60, "whole-container-reversed-by-a-slice": 40,
-                                      "populations-over-roots-with-case-variant-extensions": 10}),
+                                      "populations-over-roots-with-case-variant-extensions": 10,
+                                      "root-written-with-a-trailing-separator": 200, "map-after-fetched-trees-were-inspected": 3}),
 ]
